@@ -4,6 +4,8 @@
 #include "common/verif.hpp"
 #include "common/track.hpp"
 #include "common/seq.hpp"
+#include <variant>
+#include <optional>
 #include <frg/optional.hpp>
 #include <frg/variant.hpp>
 #include <frg/expected.hpp>
@@ -473,6 +475,64 @@ static void expected_void_case() {
 	count("expected_void_cases");
 }
 
+
+// ------------------------------------------------------------------ differential battery with an element type whose *assignment* is
+// observable but whose construction/destruction is trivial: a holder that replaces "assign the held object" by a bytewise copy
+// (or by destroy + construct) keeps (engaged, value) right and is caught only by what operator= leaves behind.
+struct Sticky {
+	int id = 0, v = 0, writes = 0; // id: identity given at construction, kept by assignment; writes: number of assignments received
+	Sticky() = default;
+	Sticky(int id_, int v_) : id(id_), v(v_) {}
+	Sticky(const Sticky &) = default;
+	Sticky(Sticky &&) = default;
+	~Sticky() = default;
+	Sticky &operator=(const Sticky &o) { v = o.v; writes++; return *this; }
+	Sticky &operator=(Sticky &&o) { v = o.v; writes++; return *this; } // (copy and move assignment are indistinguishable on purpose: which of the two a holder uses for an lvalue source is its business)
+	bool operator==(const Sticky &o) const { return id == o.id && v == o.v && writes == o.writes; }
+};
+static_assert(std::is_trivially_copy_constructible_v<Sticky> && std::is_trivially_destructible_v<Sticky> && !std::is_trivially_copy_assignable_v<Sticky>);
+
+static void sticky_case(Rng &r, std::string &trace) {
+	frg::optional<Sticky> fa, fb; std::optional<Sticky> sa, sb;
+	using FV = frg::variant<int, Sticky>; using SV = std::variant<std::monostate, int, Sticky>;
+	FV va, vb; SV wa, wb;
+	int next = 1;
+	auto same_opt = [&](frg::optional<Sticky> &f, const std::optional<Sticky> &s, const char *which) {
+		if((bool)f != s.has_value()) return fail17("sticky:optional-state", strf("%s engaged=%d, std::optional says %d after [%s]", which, (int)(bool)f, (int)s.has_value(), trace.c_str()));
+		if(f && !(*f == *s)) fail17("sticky:optional-value", strf("%s holds {id=%d v=%d writes=%d}, std::optional holds {id=%d v=%d writes=%d} after [%s]", which, f->id, f->v, f->writes, s->id, s->v, s->writes, trace.c_str()));
+	};
+	auto same_var = [&](FV &f, const SV &s, const char *which) {
+		int ft = !f ? 0 : f.is<int>() ? 1 : 2;
+		if(ft != (int)s.index()) return fail17("sticky:variant-state", strf("%s alternative %d, std::variant says %zu after [%s]", which, ft, s.index(), trace.c_str()));
+		if(ft == 1 && f.get<int>() != std::get<1>(s)) fail17("sticky:variant-value", strf("%s int value after [%s]", which, trace.c_str()));
+		if(ft == 2 && !(f.get<Sticky>() == std::get<2>(s))) { auto &x = f.get<Sticky>(); auto &y = std::get<2>(s); fail17("sticky:variant-value", strf("%s holds {id=%d v=%d writes=%d}, std::variant holds {id=%d v=%d writes=%d} after [%s]", which, x.id, x.v, x.writes, y.id, y.v, y.writes, trace.c_str())); }
+	};
+	for(size_t k = 2 + r.below(10); k && rec.violations.empty(); k--) {
+		int op = r.below(16);
+		switch(op) {
+		case 0: fa = fb; sa = sb; trace += "a=b "; break;
+		case 1: fb = fa; sb = sa; trace += "b=a "; break;
+		case 2: { Sticky t(next, next * 7); next++; fa = t; sa = t; trace += "a=T "; break; }
+		case 3: { Sticky t(next, next * 7); next++; fb = t; sb = t; trace += "b=T "; break; }
+		case 4: fa = frg::null_opt; sa.reset(); trace += "a=null "; break;
+		case 5: fa.emplace(next, next * 3); sa.emplace(next, next * 3); next++; trace += "a.emplace "; break;
+		case 6: { auto &fr = fa; fa = fr; auto &sr = sa; sa = sr; trace += "a=a "; break; }
+		case 7: if(fa) { Sticky t(next, next * 5); next++; *fa = t; *sa = t; trace += "*a=T "; } break;
+		case 8: { frg::optional<Sticky> fc(fb); std::optional<Sticky> sc(sb); fa = fc; sa = sc; trace += "a=copy(b) "; break; }
+		case 9: { frg::optional<Sticky> fc(fb); std::optional<Sticky> sc(sb); fa = std::move(fc); sa = std::move(sc); trace += "a=move(copy(b)) "; break; }
+		case 10: va = vb; wa = wb; trace += "va=vb "; break;
+		case 11: { Sticky t(next, next * 11); next++; va = t; if(wa.index() == 2) std::get<2>(wa) = std::move(t); else wa.emplace<2>(t); trace += "va=Sticky "; break; } // frg: variant(T) temporary, then same-alternative assignment = move assignment
+		case 12: vb.emplace<Sticky>(next, next * 2); wb.emplace<2>(next, next * 2); next++; trace += "vb.emplace<Sticky> "; break;
+		case 13: va.emplace<int>(next); wa.emplace<1>(next); next++; trace += "va.emplace<int> "; break;
+		case 14: vb = va; wb = wa; trace += "vb=va "; break;
+		case 15: va = FV(); wa.emplace<0>(); trace += "va=empty "; break;
+		}
+		same_opt(fa, sa, "a"); same_opt(fb, sb, "b");
+		same_var(va, wa, "va"); same_var(vb, wb, "vb");
+	}
+	count("sticky_histories");
+}
+
 int main(int argc, char **argv) {
 	parse_args(argc, argv, "c17_holders");
 	if(opt.replay_arg.find("prop=C16") != std::string::npos) g_prop = "C16";
@@ -494,6 +554,19 @@ int main(int argc, char **argv) {
 	seq_run_type<BoxAdapter>("manual_box<Elem>", t ? 8 : 6, scaled(200, 5000), 50, g_prop);
 	seq_run_type<UPtrAdapter>("unique_ptr<Elem>", t ? 6 : 5, scaled(300, 10000), 50, g_prop);
 	seq_run_type<UMemAdapter>("unique_memory", t ? 7 : 6, scaled(200, 5000), 50, g_prop);
+	if(want_mode("sticky")) {
+		Rng r(derive_seed("sticky"));
+		uint64_t n = scaled(20000, 1000000);
+		for(uint64_t i = 0; i < n; i++) {
+			if(!want_case(i)) { r.next(); continue; }
+			begin_case("sticky", i);
+			Rng rr(r.next()); std::string trace;
+			guarded(g_prop.c_str(), [&] { sticky_case(rr, trace); });
+			if(!rec.violations.empty()) break;
+			note_distinct(mix(78, hash_str(trace)));
+		}
+		sample("sticky: frg::optional<Sticky> / frg::variant<int,Sticky> vs std::optional / std::variant on random histories; Sticky has trivial constructors and destructor but an assignment that keeps its identity and counts");
+	}
 	if(want_mode("tuple")) {
 		Rng r(derive_seed("tuple"));
 		uint64_t n = scaled(300, 20000);
